@@ -33,7 +33,7 @@ def gen_abstract(r):
         c["commit"] = None      # missing optional key
     files = {}
     for i in range(r.choice([0, 1, 2, 3, 6])):
-        name = r.choice(["a%d.txt", "src/m%d.py", "docs/r%d.md", "Docs/ReadMe%d.MD", "SRC/Pkg%d/__init__.py", "VERSION%d", "Makefile%d"]) % i   # file names are case sensitive
+        name = r.choice(["a%d.txt", "src/m%d.py", "docs/r%d.md", "Docs/ReadMe%d.MD", "SRC/Pkg%d/__init__.py", "VERSION%d", "Makefile%d", "pkg%d/setup.cfg", "pkg%d/pyproject.toml", "pkg%d/bumpver.toml"]) % i   # file names are case sensitive
         files[name] = [r.choice(['__version__ = "{version}"', "{version}", "{pep440_version}", 'v = "{pep440_version}"', "Copyright YYYY" if "{" not in vp else "{version} ",
                                  'version = "{version}"  # managed by bumpver', "{version} ; stable", "badge%20v{version}", "100%% {version}"])
                        for _ in range(r.choice([1, 1, 2, 4]))]
